@@ -103,7 +103,7 @@ pub fn check_case(c: &TextCase, obs: &mut Obs) -> Verdict {
 }
 
 fn strat(tier: Tier) -> BoxedStrategy<TextCase> {
-    prop_oneof![4 => text_case_mix(tier.pick(130, 200)), 1 => line_case(tier.pick(30, 150), true)].boxed()
+    prop_oneof![8 => text_case_mix(tier.pick(130, 200)), 2 => line_case(tier.pick(30, 150), true), 1 => big_line_case(tier.pick(130, 300))].boxed()
 }
 
 const CORE: &[&[u8]] = &[b"a", b"b", b" ", b"\n", b"\r", "\u{e9}".as_bytes(), b"\x80"];
